@@ -432,13 +432,15 @@ REGISTRY["C07"] = {
                    "generated programs; quick: rapid-drawn points only. Oracle after cancel while the subscriber keeps draining: the instance's goroutines come "
                    "to rest (else: spinning), WaitUntilComplete returned, Tracer().Done() closed, every StartAll/Do/ConsumeEvent call returned, NO goroutine "
                    "started by the instance is still alive (set difference against the goroutine ids alive before the case), every task request carries a "
-                   "cancelled context."),
+                   "cancelled context. A quarter of the corpus / generated cases use split contexts: the instance is started with a context that does not descend from its construction context, position K cancels the construction context alone (the instance must come to rest - no spinning on terminated tracers), the run context is cancelled at the end. TestC18Cancel applies the same oracle to process sets of 1..3 plain executable processes (parallel blocks of up to 8 tasks, no message flows)."),
     "level_note": "Trusted: goroutine attribution by baseline id set and the all-parked fixpoint (runtime.Stack(all) is an atomic snapshot). Positions are exact in the trace order but the engine state at a position varies with scheduling; process sets are not in the corpus.",
     "technique": "fault-point enumeration (cancel at every trace position) + rapid-drawn points, leak/stuck oracle by goroutine snapshot",
     "rule": ("Distinct = (program, cancel position k, perturbation seed). Non-trivial = 0 < k < T (strictly inside the run) with at least one node goroutine started."),
     "tests": [
         {"name": "TestC07Points", "checks": {"quick": 80, "thorough": 400}, "shards": {"quick": 12, "thorough": 16}, "gomaxprocs": [4, 2, 16, 1]},
         {"name": "TestC07Generated", "checks": {"quick": 60, "thorough": 1500}, "shards": {"quick": 4, "thorough": 16}, "gomaxprocs": [4, 2, 16, 1]},
+        # the members of a process set are instances too: sets of 1..3 plain executable processes (no message flows) cancelled at any trace position
+        {"name": "TestC18Cancel", "pkg": "props/c18", "label": "process-set", "checks": {"quick": 40, "thorough": 1500}, "shards": {"quick": 4, "thorough": 16}, "gomaxprocs": [4, 2, 16, 1]},
     ],
 }
 
